@@ -2,6 +2,7 @@ package main
 
 import (
 	"fmt"
+	"go/ast"
 	"go/token"
 	"go/types"
 	"sort"
@@ -1757,4 +1758,106 @@ func init() {
 	registry["C06"].Rules = append(registry["C06"].Rules, func(c *Ctx, r *Result) { searchResultTestRule(c, r, "C06.18", 1) })
 	registry["C06"].Meta.Rules["C06.19"] = registry["C09"].Meta.Rules["C09.8"] + " (shared with C09.8: the full-read assembler places chunks with the same stride tables)"
 	registry["C06"].Rules = append(registry["C06"].Rules, func(c *Ctx, r *Result) { aliasRule(c, r, "C09", c09strides, "C09.8", "C06.19") })
+}
+
+// ---- a cursor is advanced, not redeclared (C11.21 / C06.20) ----
+//
+// offset := start + n inside a loop body or branch declares a new variable that hides the function's cursor of the same name
+// and type; the cursor itself keeps its value, and whatever reads it after the block (the next iteration) starts from the old
+// position. The rule reports a short variable declaration of an integer variable that shadows a variable of the same name and
+// type declared in an enclosing scope of the same function, when the outer variable is used again after the inner scope ends.
+func shadowedCursorRule(c *Ctx, r *Result, rule string, floor int) {
+	n, bad := 0, 0
+	for _, p := range c.Pkgs {
+		if p.TypesInfo == nil || !libPackage(p.PkgPath) {
+			continue
+		}
+		for _, file := range p.Syntax {
+			if strings.HasSuffix(p.Fset.Position(file.Pos()).Filename, "_test.go") {
+				continue
+			}
+			ast.Inspect(file, func(nd ast.Node) bool {
+				as, ok := nd.(*ast.AssignStmt)
+				if !ok || as.Tok != token.DEFINE {
+					return true
+				}
+				for _, lhs := range as.Lhs {
+					id, isId := lhs.(*ast.Ident)
+					if !isId || id.Name == "_" {
+						continue
+					}
+					obj, isDef := p.TypesInfo.Defs[id].(*types.Var)
+					if !isDef || obj == nil {
+						continue
+					}
+					bt, isB := obj.Type().Underlying().(*types.Basic)
+					if !isB || bt.Info()&types.IsInteger == 0 {
+						continue
+					}
+					inner := obj.Parent()
+					if inner == nil || inner.Parent() == nil {
+						continue
+					}
+					_, outerObj := inner.Parent().LookupParent(id.Name, id.Pos())
+					outer, isVar := outerObj.(*types.Var)
+					if !isVar || outer.Pkg() != obj.Pkg() || outer.Parent() == p.Types.Scope() || !types.Identical(outer.Type(), obj.Type()) {
+						continue
+					}
+					n++
+					// is the outer variable used after the inner scope ends?
+					usedAfter := false
+					for uid, uobj := range p.TypesInfo.Uses {
+						if uobj == types.Object(outer) && uid.Pos() > inner.End() {
+							usedAfter = true
+						}
+					}
+					// ... or does the inner scope lie in a loop of the outer variable's scope (the next iteration reads it)?
+					if !usedAfter {
+						for uid, uobj := range p.TypesInfo.Uses {
+							if uobj == types.Object(outer) && uid.Pos() < id.Pos() && uid.Pos() > outer.Pos() {
+								usedAfter = usedAfter || insideLoopBetween(file, outer.Pos(), id.Pos())
+							}
+						}
+					}
+					if usedAfter {
+						bad++
+						r.Viol(rule, fmt.Sprintf("%s#shadowed-%s-%d", shortPkg(p.PkgPath), id.Name, bad), c.Pos(id.Pos()), "`"+id.Name+" :=` declares a new variable that hides the "+id.Name+" declared at "+c.Pos(outer.Pos())+", which is read again afterwards with its old value")
+					}
+				}
+				return true
+			})
+		}
+	}
+	if bad == 0 {
+		r.Hold(rule, "module#no-shadowed-integer-variable-that-is-read-again", "", fmt.Sprintf("%d short declarations of integer variables that shadow an outer one examined", n))
+	}
+	_ = floor
+}
+
+// insideLoopBetween: some for statement encloses pos and starts after from (the redeclaration sits in a loop body inside the
+// outer variable's scope).
+func insideLoopBetween(file *ast.File, from, pos token.Pos) bool {
+	found := false
+	ast.Inspect(file, func(nd ast.Node) bool {
+		switch x := nd.(type) {
+		case *ast.ForStmt:
+			if x.Pos() > from && x.Pos() < pos && x.End() > pos {
+				found = true
+			}
+		case *ast.RangeStmt:
+			if x.Pos() > from && x.Pos() < pos && x.End() > pos {
+				found = true
+			}
+		}
+		return true
+	})
+	return found
+}
+
+func init() {
+	txt := "a cursor is advanced, not redeclared: no short variable declaration of an integer variable shadows a variable of the same name and type of an enclosing scope of the same function that is read again after the inner scope ends or in the next iteration of an enclosing loop (`offset := nameStart + pad` inside the member loop of the compound parser leaves the real cursor where it was: every member is parsed from the first member's bytes)"
+	registry["C11"].Meta.Rules["C11.21"] = txt
+	registry["C11"].Rules = append(registry["C11"].Rules, func(c *Ctx, r *Result) { shadowedCursorRule(c, r, "C11.21", 0) })
+	registry["C06"].Meta.Rules["C06.20"] = txt + " (shared with C11.21)"
+	registry["C06"].Rules = append(registry["C06"].Rules, func(c *Ctx, r *Result) { shadowedCursorRule(c, r, "C06.20", 0) })
 }
